@@ -84,6 +84,30 @@ def gen_value(rng, depth, size):
     return {'nested': {'deeper': gen_value(rng, depth - 1, size)}}
 
 
+# Unreadable content that is not a prefix of anything written: text, a
+# foreign format, short random bytes.  Opcodes that build objects (GLOBAL,
+# STACK_GLOBAL, REDUCE, NEWOBJ(_EX), INST, OBJ, BUILD) and the out-of-band
+# buffer opcodes (BYTEARRAY8, NEXT_BUFFER, READONLY_BUFFER) are left out of the
+# random bytes: a corrupted numpy pickle can crash the interpreter, which no
+# reader can turn into "not done" (observed with single flipped bytes; see
+# DESIGN.md) -- flipped bytes of valid pickles are therefore not injected.
+JUNK = (b'# valjean environment\nstatus: DONE\n', b'{"status": "DONE"}',
+        b'\x80\x04\x8e\xff\xff\xff\xff\xff\xff\xff\x7f', b'K\x01.',
+        b'\x80\x04\x95\xff\xff\xff\xff\xff\xff\xff\x7f}.', b'}.', b']q\x00.',
+        b'\x80\x04}\x94\x8c\x06status\x94K\x03s.', b'\x00\xff' * 40,
+        b'\x80\x04X\xff\xff\xff\x7fabc.', b'(lp0\nI1\naI2\na.')
+_NO_OBJECTS = bytes(b for b in range(256)
+                    if b not in b'c\x93R\x81\x92iob\x96\x97\x98')
+
+
+def junk_bytes(seed):
+    rng = random.Random(seed)
+    if rng.random() < 0.5:
+        return JUNK[rng.randrange(len(JUNK))]
+    return bytes(rng.choice(_NO_OBJECTS)
+                 for _ in range(rng.randrange(1, 80)))
+
+
 def gen_entry(tspec, version, status, root):
     '''The environment entry of a task at a given version (deterministic).'''
     import numpy as np
@@ -161,8 +185,10 @@ def gen_history(rng, fam):
         elif roll < 0.9 and faulty:
             ops.append({'op': 'damage', 'task': rng.randrange(ntask),
                         'how': rng.choice(('delete', 'empty', 'truncate',
-                                           'truncate', 'nul', 'dir')),
-                        'frac': rng.random()})
+                                           'truncate', 'nul', 'dir',
+                                           'garbage')),
+                        'frac': rng.random(),
+                        'junk': rng.randrange(1 << 30)})
         else:
             ops.append({'op': 'whole', 'version': version + 1,
                         'cut': rng.choice((None, None, rng.random()))
@@ -216,6 +242,10 @@ def _run_history(scn, sim, res, root):
     # None)) or MAY return (('may', [entries])), entry = (version, status)
     known_blobs = [dict() for _ in tasks]    # blob bytes -> (version, status)
     written = [[] for _ in tasks]            # every (version, status) tried
+    # what the last *completed, fault-free* write_env said about each task,
+    # until something (damage, a faulty write) makes that unknown
+    logical = [None for _ in tasks]
+    garbage = set()      # tasks whose file was overwritten with junk
 
     def path_of(i):
         return os.path.join(root, tasks[i]['name'], FILENAME)
@@ -231,6 +261,10 @@ def _run_history(scn, sim, res, root):
             return ('absent', None)
         if data in known_blobs[i]:
             return ('intact', known_blobs[i][data])
+        if i in garbage and any(data == junk_bytes(op2.get('junk', 0))
+                                for op2 in scn['ops']
+                                if op2.get('how') == 'garbage'):
+            return ('damaged', 'garbage')
         if not data:
             return ('damaged', 'empty')
         if not any(data):
@@ -290,6 +324,9 @@ def _run_history(scn, sim, res, root):
                 _fact(res, 'fault-configured:write-%s' % flt['kind'])
             sim.event('write', op['version'], crashed, len(fs.fired_log),
                       [disk_state(i)[0] for i in range(len(tasks))])
+            for i, _size in order:
+                logical[i] = (op['version'], op['statuses'][i]) \
+                    if not fs.fired_log and not crashed and not plan else None
             if not fs.fired_log and not crashed:
                 _fact(res, 'fault-free-writes')
                 # a completed fault-free write: every file must be intact
@@ -313,6 +350,12 @@ def _run_history(scn, sim, res, root):
                     os.unlink(path)
                 if not os.path.isdir(path):
                     os.makedirs(path, exist_ok=True)
+            elif how == 'garbage':
+                if os.path.isdir(os.path.dirname(path)) and \
+                        not os.path.isdir(path):
+                    with faultfs._REAL_OPEN(path, 'wb') as fil:
+                        fil.write(junk_bytes(op.get('junk', 0)))
+                    garbage.add(i)
             elif exists:
                 with faultfs._REAL_OPEN(path, 'rb') as fil:
                     data = fil.read()
@@ -326,6 +369,7 @@ def _run_history(scn, sim, res, root):
                     new = b'\0' * len(data)
                 with faultfs._REAL_OPEN(path, 'wb') as fil:
                     fil.write(new)
+            logical[i] = None
             _fact(res, 'damage:%s' % how)
             sim.event('damage', i, how, disk_state(i)[0])
             sim.nontrivial = True
@@ -377,7 +421,7 @@ def _run_history(scn, sim, res, root):
                       got is not None)
             if got is not None:
                 _judge_read(scn, res, opno, got, states, unreadable, written,
-                            root, status_enum)
+                            root, status_enum, logical)
         elif kind == 'whole':
             _whole_roundtrip(scn, sim, res, opno, op, root)
         if res.violations:
@@ -387,7 +431,7 @@ def _run_history(scn, sim, res, root):
 
 
 def _judge_read(scn, res, opno, got, states, unreadable, written, root,
-                status_enum):
+                status_enum, logical=None):
     tasks = scn['tasks']
     names = {t['name'] for t in tasks}
     try:
@@ -405,6 +449,24 @@ def _judge_read(scn, res, opno, got, states, unreadable, written, root,
         name = tsk['name']
         state = states[i]
         have = name in got_keys
+        if logical and logical[i] is not None and name not in unreadable:
+            # independent of what is on the disk now: the last completed
+            # write_env said this task was <status> at <version>
+            version, status = logical[i]
+            _fact(res, 'judged:against-last-completed-write')
+            if status != 'DONE' and have:
+                _viol(res, 'not-done-reported-done',
+                      'entry-for-task-last-written-%s' % status,
+                      {'op': opno, 'task': name, 'last_written': [version,
+                                                                  status],
+                       'entry': repr(dict(got[name]))[:200]})
+                continue
+            if status == 'DONE' and have and deep_diff(
+                    dict(got[name]), gen_entry(tsk, version, status, root)):
+                _viol(res, 'entry-differs', 'entry-is-not-the-last-written',
+                      {'op': opno, 'task': name, 'last_written': version,
+                       'got_version': dict(got[name]).get('version')})
+                continue
         if name in unreadable and not have:
             # an injected read fault: "not done" is the expected answer (an
             # implementation that retried and got the entry is judged below)
